@@ -120,7 +120,6 @@ def law_discrete(bag, rng, choices):
     for _ in range(3):
         r = v.randomize()
         bag.ok(in_disc(n, r), "randomize-in-domain", label, f"choices {choices!r}: randomize() = {r!r}")
-    bag.ok(tuple(v.get_bounds()) == (0, n - 1), "get_bounds", label, f"get_bounds() = {v.get_bounds()!r}, n={n}")
     for c in disc_candidates(rng, n):
         try:
             r = v.correct(c)
@@ -178,12 +177,6 @@ def law_multi(bag, rng, kind):
         r = v.randomize()
         bag.ok(isinstance(r, list) and len(r) == n and all(in_disc(len(ch), c) for ch, c in zip(chs, r)),
                "randomize-in-domain", label, f"randomize() = {r!r} for {chs!r}")
-        gb = v.get_bounds()
-        try:
-            okb = len(gb) == 2 and list(gb[0]) == [0] * n and list(gb[1]) == [len(ch) - 1 for ch in chs]
-        except Exception:
-            okb = False
-        bag.ok(okb, "get_bounds", label, f"get_bounds() = {gb!r} for sizes {[len(c) for c in chs]}")
         x = [rng.choice([-1, 0, len(ch) - 1, len(ch), len(ch) - 0.5, 0.5, rng.uniform(-2, len(ch) + 2)]) for ch in chs]
         try:
             c = v.correct(x)
